@@ -38,6 +38,60 @@ def preload():
     import matplotlib.font_manager  # noqa: F401
 
 
+def run_isolated(mod, seed, tier, scratch, timeout=900.0):
+    """Execute one run in a forked child of this (preloaded, single-threaded) worker,
+    so that no module-level state, environment variable, open file, cwd or warning
+    filter can travel from one run to the next: a run in a worker is then the same
+    thing as its replay in a fresh process.  Returns the result dict."""
+    import select
+    from . import util
+    r, w = os.pipe()
+    pid = os.fork()
+    if pid == 0:
+        code = 0
+        try:
+            os.close(r)
+            try:
+                res = mod.run_one(seed, tier, scratch=scratch)
+            except BaseException:
+                res = {'seed': seed, 'harness_error': traceback.format_exc()}
+            data = util.dumps(res).encode()
+            with os.fdopen(w, 'wb') as f:
+                f.write(data)
+        except BaseException:
+            code = 3
+        finally:
+            os._exit(code)
+    os.close(w)
+    chunks = []
+    t_end = _walltime.monotonic() + timeout
+    timed_out = False
+    while True:
+        left = t_end - _walltime.monotonic()
+        if left <= 0:
+            timed_out = True
+            break
+        ready, _, _ = select.select([r], [], [], min(left, 5.0))
+        if ready:
+            b = os.read(r, 1 << 20)
+            if not b:
+                break
+            chunks.append(b)
+    os.close(r)
+    if timed_out:
+        try:
+            os.kill(pid, 9)
+        except OSError:
+            pass
+    _, status = os.waitpid(pid, 0)
+    if timed_out:
+        return {'seed': seed, 'harness_error': 'run timed out after %.0fs and was killed' % timeout}
+    try:
+        return json.loads(b''.join(chunks).decode())
+    except ValueError:
+        return {'seed': seed, 'harness_error': 'child died (wait status %d) without a result' % status}
+
+
 def module_for(prop):
     return importlib.import_module('pydlsim.{0}.check'.format(prop.lower()))
 
@@ -54,6 +108,7 @@ def main(argv=None):
     ap.add_argument('--out', required=True)
     ap.add_argument('--scratch', default=None)
     ap.add_argument('--hard-timeout', type=float, default=0.0)
+    ap.add_argument('--no-fork', action='store_true')
     a = ap.parse_args(argv)
     faulthandler.enable()
     if a.hard_timeout > 0:
@@ -71,11 +126,14 @@ def main(argv=None):
                 out.write(json.dumps({'budget_exhausted_at': i}) + '\n')
                 break
             seed = util.run_seed(a.prop, a.base, i)
-            try:
-                res = mod.run_one(seed, a.tier, scratch=a.scratch)
-                res['i'] = i
-            except Exception:
-                res = {'i': i, 'seed': seed, 'harness_error': traceback.format_exc()}
+            if a.no_fork:
+                try:
+                    res = mod.run_one(seed, a.tier, scratch=a.scratch)
+                except Exception:
+                    res = {'seed': seed, 'harness_error': traceback.format_exc()}
+            else:
+                res = run_isolated(mod, seed, a.tier, a.scratch)
+            res['i'] = i
             out.write(util.dumps(res) + '\n')
             out.flush()
         out.write(json.dumps({'done': True}) + '\n')
